@@ -797,6 +797,13 @@ class Emitter:
         if op in ('udiv', 'urem'):
             if w64: return 'UDIVREM64(%s, %s, %s)' % (a, '/' if op == 'udiv' else '%', b)
             return '((%s)(%s %s %s))' % (ct, a, '/' if op == 'udiv' else '%', b)
+        if w64 and op == 'and':
+            ba, bb = s.is_big(ins.a), s.is_big(ins.b)
+            if (ba is None) != (bb is None):
+                # x & M with a 64-bit mask outside the narrow width: for a NON-NEGATIVE x that fits W bits only the low bits of M matter (exact);
+                # a negative x would give a value that does not fit: reported by a NARROW property.  At W=64 the plain operation is used.
+                big = ba if ba is not None else bb; x = s.v(ins.b if ba is not None else ins.a)
+                return 'AND_BIG(%s, %dULL, %dULL)' % (x, big & 0x7FFFFFFF, big & ((1 << 64) - 1))
         if op in ('and', 'or', 'xor'): return '((%s)(%s %s %s))' % (ct, a, {'and': '&', 'or': '|', 'xor': '^'}[op], b)
         if op == 'shl':
             if w64: return 'SHL64(%s, %s)' % (a, b)
@@ -895,6 +902,22 @@ class Emitter:
             if bits == 64:
                 o.append('  { u1 ov_; u64 r_ = SOVF64(%s, %s, %s, &ov_); ST64(%s.b, r_); *(u1*)(%s.b + 8) = ov_; }' % (av[0], cop, av[1], d, d)); return
             o.append('  { %s w_ = (%s)(%s)%s %s (%s)(%s)%s; *(%s*)(%s.b) = (%s)w_; *(u1*)(%s.b + %d) = (u1)(w_ != (%s)(%s)w_); }' % (wt, wt, nt, av[0], cop, wt, nt, av[1], ct, d, ct, d, bits // 8, wt, nt)); return
+        m = re.match(r'llvm\.usub\.sat\.i(\d+)', n)
+        if m:   # max(a - b, 0) on unsigned operands (exact in narrow mode for the non-negative values that occur as sizes; a NARROW property guards the rest)
+            ct = s.cty(IntTy(int(m.group(1))))
+            if int(m.group(1)) == 64: o.append('  __CPROVER_assert((s64)%s >= 0 && (s64)%s >= 0, "NARROW usub.sat operands are non-negative");' % (av[0], av[1]))
+            o.append('  %s = ((%s)%s > (%s)%s) ? (%s)(%s - %s) : (%s)0;' % (d, ct, av[0], ct, av[1], ct, av[0], av[1], ct)); return
+        if n.startswith('llvm.is.constant'):
+            o.append('  %s = (u1)0;' % d); return
+        if n.startswith('llvm.stacksave'):
+            o.append('  %s = (ptr)0;' % d); return
+        if n.startswith('llvm.stackrestore'):
+            return
+        m = re.match(r'llvm\.(fabs|fmuladd)\.f64', n)
+        if m:
+            if m.group(1) == 'fabs': o.append('  %s = (%s < 0.0) ? -%s : %s;' % (d, av[0], av[0], av[0]))
+            else: o.append('  %s = %s * %s + %s;' % (d, av[0], av[1], av[2]))
+            return
         m = re.match(r'llvm\.(ctlz|cttz)\.i(\d+)', n)
         if m:
             o.append('  %s = (%s)rt_%s(%s, %s);' % (d, s.cty(IntTy(int(m.group(2)))), m.group(1), av[0], m.group(2))); return
